@@ -369,3 +369,50 @@ _SEVENTH_ROUND = {
 }
 for _pid, _extra in _SEVENTH_ROUND.items():
     CLAIMS[_pid]['text'] = CLAIMS[_pid]['text'] + ' Seventh round: ' + _extra
+
+
+# rules added in the eighth round
+_SCOPE = ('The scope core (rule `scope`, shared with C04): the closing sequence on every exit '
+          'of Scope.__aexit__ whatever signal arrives while it waits; a foreign signal leaves '
+          'the exit as an exception; the closing loops walk copies and close every child they '
+          'meet; only the exit closes children; Task.__close__ finalises started and '
+          'unstarted tasks alike.')
+_UNTIL = ('The until core (rule `until`/`scope`, shared with C04/C07): an until-block '
+          'subscribes (its activity, its own signal) and takes the same pair back when it is '
+          'closed, by whichever activity; closing a scope withdraws its own signals.')
+_EIGHTH_ROUND = {
+    'C01': _UNTIL + ' An activation counts unless its signal was revoked; run(start, till) '
+           'ends at `till` as given (root shape, shared with C07/C15).',
+    'C02': _UNTIL + ' Weak references are audited: every weak container of the package is '
+           'named with the reason why what it still holds cannot be observed.',
+    'C03': _SCOPE + ' ' + _UNTIL,
+    'C04': _UNTIL + ' ' + _KERNEL,
+    'C05': _SCOPE + ' ' + _UNTIL + ' A task reports its end to its scope before it wakes its '
+           'awaiters. ' + _KERNEL,
+    'C06': _SCOPE + ' ' + _UNTIL + ' Every handler of the package that can catch an internal '
+           'signal re-raises it unless it is its own (rule shared with C03). ' + _KERNEL,
+    'C07': _KERNEL,
+    'C08': _UNTIL + ' An activation counts unless its signal was revoked (a scheduled trigger '
+           'stays scheduled).',
+    'C09': _UNTIL, 'C10': _UNTIL, 'C11': _UNTIL,
+    'C12': _UNTIL + ' A new tracked value is told to every listening comparison in the '
+           'atomic block that stores it (rule shared with C08).',
+    'C13': _UNTIL + ' The closing sequence of scopes on every exit (an aborted transfer is '
+           'reached by the abort).',
+    'C14': _UNTIL + ' Nothing is scheduled into the past and `after == 0` / `at == now` are '
+           'undated starts (schedule preconditions and plumbing of C01).',
+    'C15': _SCOPE + ' ' + _UNTIL + ' Module level dicts that are written anywhere in their '
+           'module are simulation state.',
+    'C16': _SCOPE + ' ' + _UNTIL,
+    'C17': 'The children of a Concurrent are written by its constructor only; the cache of '
+           'specialisations is one object made in the class body of the template.',
+    'C18': _SCOPE + ' ' + _UNTIL + ' Environment.until suspends at least once between '
+           'entering the environment and StopSimulation; interrupt() never raises and queues '
+           'the cause for every live process.',
+    'C19': _SCOPE + ' ' + _UNTIL + ' Every request class that brings a cancel of its own '
+           'takes this very request out of its queue iff it was not triggered; interrupt() '
+           'never raises.',
+    'C20': _UNTIL,
+}
+for _pid, _extra in _EIGHTH_ROUND.items():
+    CLAIMS[_pid]['text'] = CLAIMS[_pid]['text'] + ' Eighth round: ' + _extra
